@@ -40,6 +40,34 @@ def sparse_third(hists, seed):
 class QueueGen:
     name = "queue"
 
+    @staticmethod
+    def recreate_program(k, cc, conf_first, n1=3, n2=3, keep=False):
+        """a queue at slot k is destroyed (`destroy_cb o=k`: the only single-queue destructor of the protocol)
+        and IMMEDIATELY re-created through the other constructor (other allocator triple); then it is enqueued
+        until the inner deque grows, iterated, zipped with itself and with the other slot.  Returns
+        (ops, iteration view of slot k, capacity, on C library triple?)."""
+        sk = f" o={k}" if k else ""
+        o = 1 - k
+        so = f" o={o}" if o else ""
+        mk_conf, mk_def = f"new cap={cc}{sk}", f"new_default{sk}"
+        first, second = (mk_conf, mk_def) if conf_first else (mk_def, mk_conf)
+        ops = [first] + [f"enqueue {10 + i}{sk}" for i in range(n1)] + [f"destroy_cb o={k}", second]
+        cap = 8 if conf_first else upper_pow_two(cc)
+        vals = [20 + i for i in range(max(n2, cap + 1))]          # … until the ring grows
+        ops += [f"enqueue {v}{sk}" for v in vals]
+        while cap < len(vals):
+            cap *= 2
+        ops += [f"it_new{sk}", "it_next", "it_replace 7", "it_next", f"foreach{sk}", f"peek{sk}", "observe",
+                f"zit_new o={k} o2={k}", "zit_next", "zit_replace 8 9", "zit_next",
+                f"new cap=2{so}", f"enqueue 5{so}", f"enqueue 6{so}", f"enqueue 7{so}",
+                f"zit_new o={k} o2={o}", "zit_next", "zit_next", f"poll{sk}", "observe", f"destroy_cb o={o}"]
+        view = list(reversed(vals))           # newest first
+        view[0] = 9
+        view.pop()                            # poll removes the oldest
+        if not keep:
+            ops.append(f"destroy_cb o={k}")
+        return ops, view, cap, conf_first
+
     def small_scope(self, tier, focus=None):
         return sparse_third(self._small_scope(tier, focus), 12345)
 
@@ -82,6 +110,12 @@ class QueueGen:
             out.append(["new cap=4 fail=1", "enqueue 1", "destroy"])
             out.append(["new cap=4 fail=2", "enqueue 1", "destroy"])
             out.append(["new cap=4 fail=3", "enqueue 1", "destroy"])
+        if focus in ("derived", "all"):            # destroy + immediate re-creation on the other triple, same slot
+            for k in (0, 1):
+                for cc in (1, 2, 4, 5):
+                    for conf_first in (True, False):
+                        for n1 in (1, 3):
+                            out.append(self.recreate_program(k, cc, conf_first, n1, 2)[0] + ["destroy"])
         if focus in ("reject", "all"):             # rejected calls: empty queue, iterator replace before next
             for cap in (1, 2, 4):
                 out.append([f"new cap={cap}", "poll", "peek", "it_new", "it_replace 5", "it_next", "enqueue 1", "it_new",
@@ -136,6 +170,13 @@ class QueueGen:
                 sims[0] = Sim(8)
                 ops = ["new_default"]
                 default_obj = True
+            if focus in ("derived", "all") and rng.random() < 0.2:
+                pre, view, cap, is_default = self.recreate_program(0, cc, rng.random() < 0.5, rng.randint(1, 4),
+                                                                   rng.randint(1, 4), keep=True)
+                ops = pre
+                sims = [Sim(1), None]
+                sims[0].items, sims[0].cap = list(view), cap
+                default_obj = is_default
             length = rng.randint(1, 90 if focus != "growth" else 300)
             p_enq = rng.choice([0.3, 0.5, 0.55, 0.7, 0.9])
             if focus in ("growth", "fault"):
